@@ -266,7 +266,8 @@ fn main() {
             let (path, text) = (d[0].as_str().unwrap_or(""), d[1].as_str().unwrap_or(""));
             // a compiler cache / wrapper may keep the real file elsewhere and leave a symbolic link
             let h = rng::fnv(text.as_bytes()) ^ rng::fnv(path.as_bytes());
-            if h % 5 == 0 {
+            // (only for plain relative paths: the link target is computed lexically)
+            if h % 5 == 0 && !path.contains("..") && !path.starts_with('/') {
                 let real = format!(".n2v/dep-{:016x}.d", h);
                 let _ = std::fs::write(&real, text);
                 let _ = std::fs::remove_file(path);
